@@ -434,7 +434,11 @@ func (e *kvElection) attemptPriorityTakeover(payloadBytes []byte) error {
 
 	var currentPayload leadershipPayload
 	if err := json.Unmarshal(entry.Value(), &currentPayload); err != nil {
-		return e.attemptAcquire()
+		// The record cannot be parsed, so its priority is unknown: never preempt it.
+		// Returning (instead of calling attemptAcquire again, which calls back into
+		// this function) keeps the stack bounded while such a record exists; the
+		// caller's retry/periodic check tries again later.
+		return fmt.Errorf("priority takeover skipped (unparsable leadership record): %w", err)
 	}
 
 	if e.cfg.Priority <= currentPayload.Priority {
